@@ -323,3 +323,21 @@ func BalancesMB(b *block.Block, txn *transaction.Transaction, mb *block.MagicBlo
 		nil)
 	return sc, t
 }
+
+// RoundTrip checks the C08 clauses for one entity: x is encoded, decoded into fresh, compared,
+// and the decoded value re-encoded.
+func RoundTrip(label string, x, fresh util.MPTSerializable) {
+	b, err := x.MarshalMsg(nil)
+	if err != nil {
+		sym.Fail(label + " encodes")
+		return
+	}
+	if _, err := fresh.UnmarshalMsg(b); err != nil {
+		sym.Fail(label + " decodes")
+		return
+	}
+	sym.Cover(label)
+	sym.Assert(sym.DeepEqual(x, fresh), label+": the decoded value equals the stored one")
+	b2, err := fresh.MarshalMsg(nil)
+	sym.Assert(err == nil && sym.DeepEqual(b, b2), label+": re-encoding the decoded value yields identical bytes")
+}
